@@ -10,6 +10,7 @@ import Verif.C02.PLemmas
 import Verif.C02.LexLemmas
 import Verif.C02.TextLemmas
 import Verif.C02.XText
+import Verif.C02.VarLemmas
 
 namespace Verif.C02
 open Verif.Codec Verif.Py
@@ -632,6 +633,74 @@ def dVarPred : DMRS :=
 
 set_option maxRecDepth 4000 in
 example : idMap dVarPred = [(10000, S "e1_"), (10001, S "x2")] := by decide
+
+/-! ### the hypothesis `ExpressibleP.vars` discharged (round 7) -/
+
+/-- the variables `to_triples` hands out are pairwise different whenever the node identifiers are and every node
+type is a single character or absent (the sorts x, e, i, u, p, h: everything `Node` is meant to carry) -/
+theorem penman_variables_distinct (d : DMRS) (hids : (d.nodes.map (·.id)).Nodup) (hs : SortTypes d) :
+    ((idMap d).map (·.2)).Nodup :=
+  vars_nodup d hids hs
+
+/-- `penman_roundtrip` without the hypothesis on the variable names: node types of at most one character instead -/
+theorem penman_roundtrip_sorts (o : Opts) (d : DMRS)
+    (hn : ∀ n ∈ d.nodes, NodeOKP n) (hl : ∀ l ∈ d.links, LinkOKP l) (hids : (d.nodes.map (·.id)).Nodup)
+    (hends : ∀ l ∈ d.links, l.start ∈ d.nodes.map (·.id) ∧ l.stop ∈ d.nodes.map (·.id))
+    (htop : ∃ t, d.top = some t ∧ t ∈ d.nodes.map (·.id)) (hs : SortTypes d) :
+    ∃ ts, toTriples o d = .ok ts ∧ fromTriples ts = .ok (viewP o d) :=
+  fromTriples_toTriples o d ⟨hn, hl, hids, hends, htop, vars_nodup d hids hs⟩
+
+/-- the restriction on the types is needed: with a type of two characters the names can coincide (`x1` at position 1
+and `x` at position 11 both give `x11`) although the identifiers are pairwise different -/
+def dClash : DMRS :=
+  { top := some 10000, index := none,
+    nodes := { id := 10000, pred := S "a", type := some (S "x1") } ::
+      ([10001, 10002, 10003, 10004, 10005, 10006, 10007, 10008, 10009, 10010] : List Int).map
+        (fun k => ({ id := k, pred := S "b", type := some (S "x") } : Node)),
+    links := [] }
+
+set_option maxRecDepth 20000 in
+theorem penman_sorts_needed :
+    (dClash.nodes.map (·.id)).Nodup ∧ ¬ SortTypes dClash ∧ ¬ ((idMap dClash).map (·.2)).Nodup := by
+  refine ⟨by decide, ?_, by decide⟩
+  intro h
+  have := h { id := 10000, pred := S "a", type := some (S "x1") } (by simp [dClash]) (S "x1") rfl
+  exact absurd this (by decide)
+
+/-! ### nodes that compare equal (`Node.__eq__` ignores identifier and alignment) -/
+
+/-- "yields the same node identifiers …": every codec keeps every node, also two nodes that differ in nothing but
+their identifier (and alignment) — the decoded node lists carry the identifiers of `d.nodes` one by one (PENMAN: of
+the kept nodes, renumbered), nothing is merged; and PENMAN's "top first" goes by identifier: the kept nodes are a
+permutation of the nodes whose identifier is connected to the top -/
+theorem twins_kept (o : Opts) (d : DMRS) :
+    (viewS o d).nodes.map (·.id) = d.nodes.map (·.id) ∧
+    (viewX o d).nodes.map (·.id) = d.nodes.map (·.id) ∧
+    (viewJ o d).nodes.map (·.id) = d.nodes.map (·.id) ∧
+    (viewP o d).nodes.map (·.id) = (pOrder d).map (fun n => renId d n.id) ∧
+    (pOrder d).Perm (d.nodes.filter (fun n => n.id ∈ mainComponent d)) ∧
+    (viewS o d).top = d.top ∧ (viewX o d).top = d.top ∧ (viewJ o d).top = d.top ∧
+    (viewP o d).top = d.top.map (renId d) := by
+  refine ⟨by simp [viewS, viewNodeS, List.map_map, Function.comp_def],
+    by simp [viewX, viewNodeX, List.map_map, Function.comp_def],
+    by simp [viewJ, viewNodeJ, List.map_map, Function.comp_def],
+    by simp [viewP, viewNodeP, List.map_map, Function.comp_def], ?_, rfl, rfl, rfl, rfl⟩
+  unfold pOrder
+  apply List.Perm.filter
+  have h := List.filter_append_perm (fun n : Node => decide (d.top = some n.id)) d.nodes
+  have he : (d.nodes.filter (fun n => decide (d.top ≠ some n.id))) =
+      d.nodes.filter (fun n => !decide (d.top = some n.id)) := by
+    apply List.filter_congr
+    intro n _
+    simp
+  rw [he]
+  exact h
+
+/-- two twins (same predicate, type, properties, constant; identifiers 10000 and 10001, the second is the top) -/
+example : (viewP ⟨true, true⟩
+    { top := some 10001, index := none,
+      nodes := [{ id := 10000, pred := S "a", type := some (S "x") }, { id := 10001, pred := S "a", type := some (S "x") }],
+      links := [⟨10000, 10001, some (S "ARG1"), some (S "EQ")⟩] }).nodes.map (·.id) = [10000, 10001] := by decide
 
 /-! ## the constructor (`_normalize_top_and_links`) -/
 
